@@ -1,3 +1,4 @@
+import PMH.Proofs.GenEq
 import PMH.Props.C02
 import PMH.Proofs.PmhLaws
 import PMH.Proofs.PmhColl
@@ -48,6 +49,38 @@ theorem pmh2_first_hit_is_exponential (m : ℕ) (hm : 1 ≤ m) {s : ℝ} (hs : 0
 /-- its first moment: the mean first-hit time is `m` -/
 theorem pmh2_mean_first_hit_time (m : ℕ) (hm : 1 ≤ m) : (1 / (m : ℚ)) * ∑ J ∈ Finset.range m, E m J = m :=
   pmh2_mean_first_hit_E m hm
+
+/-! ### the same two statements for the constants CUT OUT OF THE SOURCE on every check (`Model/PmhConstGen.lean`,
+`tools/translate_float.py`): the `let lambda = …` of the three ProbMinHash3 constructors and the closure of the `betas` table -/
+
+/-- the rate computed by `ProbMinHash3::new`, `ProbMinHash3a::new` and `ProbMinHash3aSha::new` is the `λ` of (a) -/
+theorem source_rate_is_lam {m : ℕ} (hm : 2 ≤ m) :
+    Gen.pmh3Lambda RA.realOps m = lam m ∧ Gen.pmh3aLambda RA.realOps m = lam m ∧ Gen.pmh3aShaLambda RA.realOps m = lam m :=
+  ⟨GenEq.pmh3Lambda_eq (by omega), GenEq.pmh3aLambda_eq (by omega), GenEq.pmh3aShaLambda_eq (by omega)⟩
+
+/-- **C01 (a), source** the survival identity with the rate as the source computes it -/
+theorem source_pmh3_first_hit_is_exponential {m : ℕ} (hm : 2 ≤ m) (n : ℕ) (s : ℝ) :
+    (1 - 1 / (m : ℝ)) ^ n * (1 - (1 / (m : ℝ)) * truncCdf (Gen.pmh3Lambda RA.realOps m) s)
+      = Real.exp (-(Gen.pmh3Lambda RA.realOps m) * ((n : ℝ) + s)) := by
+  rw [(source_rate_is_lam hm).1]; exact pmh3_first_hit_is_exponential hm n s
+
+/-- means of the gaps between consecutive points of an item as the source computes them: 1, then `betas[0], betas[1], …` -/
+noncomputable def sourceGap (m : ℕ) : ℕ → ℝ
+  | 0 => 1
+  | i + 1 => Gen.pmh2Beta m i
+
+/-- **C01 (b), source** the Laplace-transform identity with the `betas` table as the source computes it -/
+theorem source_pmh2_first_hit_is_exponential (m : ℕ) (hm : 1 ≤ m) {s : ℝ} (hs : 0 ≤ s) :
+    (1 / (m : ℝ)) * ∑ J ∈ Finset.range m, ∏ i ∈ Finset.range (J + 1), 1 / (1 + s * sourceGap m i)
+      = (1 / (m : ℝ)) / (1 / (m : ℝ) + s) := by
+  rw [← pmh2_first_hit_is_exponential m hm hs]
+  congr 1
+  refine Finset.sum_congr rfl (fun J hJ => Finset.prod_congr rfl (fun i hi => ?_))
+  have hJ' := Finset.mem_range.mp hJ
+  have hi' := Finset.mem_range.mp hi
+  cases i with
+  | zero => rfl
+  | succ i => simp only [sourceGap]; rw [GenEq.pmh2Beta_eq (by omega)]
 
 /-- **C01 (c)** the race of independent exponential clocks: item with rate `a` beats the rest (total rate `b`)
 with probability `a/(a+b)` — for a single weighted set, position holds `d` with probability `w_d/Σw` -/
